@@ -128,6 +128,31 @@ CLAIMS = {
          "RangeGet->RangeGet; T is the type the index encoder's Decode boxes and the element type of the offsets handed to it. Necessary for "
          "exactness because the trie alone has false positives; the trie's own answers for indexed keys are C01/C02."),
    design="4/C12"),
+
+ "C01": dict(
+   technique="typestate of bitmap index kinds (writer/reader agreement over wire field paths) + symbolic sibling agreement + interval evaluation with wrap-around",
+   text=("Decides necessary conditions of no-false-negatives that hold for every key set: every rank/select site (library calls and the inlined "
+         "idiom, receiver-relative sites bound at call sites) assumes exactly the index kind its wire bitmap is built with and pairs words with "
+         "the index of the same bitmap; every copy of the node-layout computation yields the same normalised from/to/short-bitmap terms and "
+         "guards, derived constants and the builder's (4,17)/(8,257) size pairs agree; the query-byte-to-label-index function has value ranges "
+         "exactly {0}, [1,16], [1,256] per branch under wrap-around interval evaluation (all bytes 0x00-0xff addressable, no sign extension). "
+         "Does not decide that ranks select the right child or the value-array width decision."),
+   design="4/C01"),
+ "C10": dict(
+   technique="CFG dominance/reachability guards (overrun, key index, empty trie incl. sentinel-correlated guards) + symbolic sibling agreement",
+   text=("Decides the guards the lookups' totality rests on and the by-construction part of consistency: step-mode cursor advances are checked "
+         "against the key length on every path to the next label lookup; the only key byte read is dominated by cursor<keyBitLen and sessions "
+         "are created with keyBitLen=8*len(key); lookups never dereference the node-type bitmap of an empty trie (nil tests or the callee's own "
+         "empty-trie sentinel); the lookup node decoder agrees with its sibling copies incl. the guard of the straddled word; Get/GetI* share one "
+         "GetID, RangeGet/Search one descent, both descents update the cursor with identical terms. No-panic in general needs data invariants "
+         "and is not decided."),
+   design="4/C10"),
+ "C19": dict(
+   technique="provenance typing of []uint64 values (bitmap words vs label path lists) through returns/tuples + map-range/sort discipline",
+   text=("Decides the clause whose violation made String() panic on tries with table-compressed nodes: no path list flows into a bitmap "
+         "parameter, (bitmap,size) pairs carry the size the words were cut with on every return, each bmtree.Decode gets that size; labels are "
+         "rendered from a sorted slice; String on an empty trie returns first. The rest of the rendering (each node once, child ids) is not decided."),
+   design="4/C19"),
 }
 
 NA = {
